@@ -168,3 +168,79 @@ theorem main_order_independent (o : Opts) (key : Option Bytes) (l₁ l₂ : List
   unfold main run; rw [hl]
 
 end Run
+
+namespace Run
+open W
+
+theorem tipLt_asymm (a b : Wk.Rec) (h : tipLt a b = true) : tipLt b a = false := by
+  simp only [tipLt, Bool.or_eq_true, Bool.and_eq_true, decide_eq_true_eq, beq_iff_eq] at h
+  simp only [tipLt, Bool.or_eq_false_iff, Bool.and_eq_false_iff, decide_eq_false_iff_not, beq_eq_false_iff_ne]
+  rcases h with h | ⟨he, hl⟩
+  · exact ⟨by omega, Or.inl (by omega)⟩
+  · exact ⟨by omega, Or.inr (lexLt_asymm _ _ hl)⟩
+
+/-- the tip choice at full strength: the fully validated record that is greatest in `(height, hash)` order is picked, wherever it
+    sits in the table — including when a competing fully validated record has the *same* height (the hash decides) -/
+theorem pickTip_of_greatest (t : Wk.Rec) : ∀ (l : List Wk.Rec) (best : Option Wk.Rec),
+    (best = some t ∨ (t ∈ l ∧ ∀ b, best = some b → tipLt b t = true)) →
+    validScripts t = true →
+    (∀ r ∈ l, validScripts r = true → r = t ∨ tipLt r t = true) →
+    (l.filter validScripts).foldl (fun best r => match best with
+      | none => some r
+      | some b => if tipLt b r then some r else some b) best = some t := by
+  intro l
+  induction l with
+  | nil =>
+    intro best h _ _
+    rcases h with h | ⟨h, _⟩
+    · simpa using h
+    · cases h
+  | cons x xs ih =>
+    intro best h hv hall
+    have hall' : ∀ r ∈ xs, validScripts r = true → r = t ∨ tipLt r t = true :=
+      fun r hr => hall r (List.mem_cons_of_mem _ hr)
+    have tt : tipLt t t = false := by
+      cases e : tipLt t t with
+      | false => rfl
+      | true => have := tipLt_asymm t t e; rw [e] at this; cases this
+    by_cases hx : validScripts x = true
+    · rw [List.filter_cons_of_pos hx, List.foldl_cons]
+      apply ih _ _ hv hall'
+      rcases hall x (List.mem_cons_self ..) hx with rfl | hxt
+      · -- x is t
+        left
+        rcases h with rfl | ⟨_, hb⟩
+        · simp [tt]
+        · cases best with
+          | none => rfl
+          | some b => simp [hb b rfl]
+      · rcases h with rfl | ⟨hm, hb⟩
+        · left; simp [tipLt_asymm _ _ hxt]
+        · right
+          have hm' : t ∈ xs := by
+            rcases List.mem_cons.mp hm with e | hm'
+            · subst e; rw [tt] at hxt; cases hxt
+            · exact hm'
+          refine ⟨hm', ?_⟩
+          cases best with
+          | none => intro b hb'; injection hb' with e; subst e; exact hxt
+          | some b0 =>
+            intro b hb'
+            by_cases c : tipLt b0 x = true
+            · simp only [c, if_true] at hb'; injection hb' with e; subst e; exact hxt
+            · simp only [c] at hb'; injection hb' with e; subst e; exact hb b0 rfl
+    · rw [List.filter_cons_of_neg hx]
+      apply ih _ _ hv hall'
+      rcases h with h | ⟨hm, hb⟩
+      · exact Or.inl h
+      · right
+        refine ⟨?_, hb⟩
+        rcases List.mem_cons.mp hm with e | hm'
+        · subst e; exact (hx hv).elim
+        · exact hm'
+
+theorem pickTip_greatest (t : Wk.Rec) (l : List Wk.Rec) (hm : t ∈ l) (hv : validScripts t = true)
+    (hall : ∀ r ∈ l, validScripts r = true → r = t ∨ tipLt r t = true) : pickTip l = some t :=
+  pickTip_of_greatest t l none (Or.inr ⟨hm, fun _ h => by cases h⟩) hv hall
+
+end Run
